@@ -1,8 +1,8 @@
 #!/usr/bin/env python3
-def cfg(name, ninc=2, notify=1, deliver=1, window="TRUE", guard="TRUE", cleanup="FALSE", serial="FALSE", invs=None, depth=None, batch=0, retryends="TRUE"):
+def cfg(name, ninc=2, notify=1, deliver=1, window="TRUE", guard="TRUE", cleanup="FALSE", serial="FALSE", invs=None, depth=None, batch=0, retryends="TRUE", ack=0):
     out = "INIT SimInit\nNEXT SimNext\n" if depth else "SPECIFICATION Spec\n"
-    out += "CONSTANTS\n  NInc = %d\n  MaxNotify = %d\n  MaxDeliver = %d\n  WindowFix = %s\n  GuardFix = %s\n  CleanupFix = %s\n  SerialReg = %s\n  MaxBatch = %d\n  RetryEnds = %s\n" % (
-        ninc, notify, deliver, window, guard, cleanup, serial, batch, retryends)
+    out += "CONSTANTS\n  NInc = %d\n  MaxNotify = %d\n  MaxDeliver = %d\n  WindowFix = %s\n  GuardFix = %s\n  CleanupFix = %s\n  SerialReg = %s\n  MaxBatch = %d\n  RetryEnds = %s\n  MaxAck = %d\n" % (
+        ninc, notify, deliver, window, guard, cleanup, serial, batch, retryends, ack)
     if depth:
         out += "  Depth = %d\n" % depth
     else:
@@ -20,8 +20,9 @@ cfg("life_cur3", ninc=3, serial="TRUE", invs="AllGone NoCrash NewestSender")
 cfg("life_cur_full3", ninc=3, notify=2, invs="AllGone NoCrash")
 cfg("life_ideal3", ninc=3, cleanup="TRUE", serial="TRUE", invs=ALL)
 # task batches for a target shard whose sender is between incarnations: the receiver's retry loop
-cfg("life_batch", serial="TRUE", batch=2, invs="AllGone NoCrash NewestSender RetryCanEnd")
+cfg("life_batch", serial="TRUE", batch=2, ack=1, invs="AllGone NoCrash NewestSender RetryCanEnd")
 cfg("life_batch_mut", serial="TRUE", batch=1, retryends="FALSE", invs="RetryCanEnd")      # violated: vacuity guard
-cfg("sim_b", batch=2, depth=36)
+cfg("life_ack_mut", serial="TRUE", ack=1, retryends="FALSE", invs="RetryCanEnd")          # violated: vacuity guard (sender side)
+cfg("sim_b", batch=2, ack=2, depth=38)
 cfg("sim_q", depth=34)
 cfg("sim_t", ninc=3, notify=2, deliver=2, depth=52)
